@@ -168,6 +168,16 @@ def run(ctx):
             mark = '<exception %s>' % norm(hs[0].type)
             via = [p for p in table if any(isinstance(c, ast.Name) and c.id == mark and pol for c, pol in p.conds)]
             okh = bool(via) and all(not p.raises and isinstance(p.value, ast.Name) and p.value.id == hs[0].name for p in via)
+    from .common import fragile_handler_steps as _fragile
+    frag = [x for t in walk_own(pc.node) if isinstance(t, ast.Try) for h in t.handlers
+            if any(isinstance(x, ast.Call) and isinstance(x.func, ast.Attribute) and x.func.attr == 'create_category_tuning' for b in t.body for x in ast.walk(b))
+            for x in _fragile(h)]
+    cb.instance('the handler of a failing tuner has no step that can fail on its own', pc.qualname, not frag)
+    for x in frag[:1]:
+        res.add(Finding('C19', 'C19.b', 'R-CONTAIN', pc.file, pc.qualname, x.lineno, norm(x)[:80],
+                        'the handler that turns a failing tuner into that category\'s result evaluates `%s`, which fails for some exceptions (one raised '
+                        'without arguments / without that attribute): the new error leaves the per-category routine and takes the other categories '
+                        'down with it' % norm(x)[:60]))
     cb.instance('tuner call inside try; handler returns the exception as this category\'s result', pc.qualname, okh)
     if not okh:
         res.add(Finding('C19', 'C19.b', 'R-CONTAIN', pc.file, pc.qualname, pc.node.lineno, 'tuner failure handler',
@@ -292,6 +302,8 @@ def run(ctx):
     # ---- C19.l selection: the lookup hands the cassette the caller's filter; S3 prefixes end at the category; the worker serves every task
     _cm19.import_clauses(ctx, res, 'C10', ['C10.a', 'C10.b'], 'C19', 'C19.l', 'R-SIBLING', 'lookup filter and listing prefixes select exactly the category\'s recordings', floor=4)
     _cm19.import_clauses(ctx, res, 'C08', ['C08.c'], 'C19', 'C19.m', 'R-CONTAIN', 'the worker keeps serving: a selected recording is replayed, not failed for a worker that left', floor=3)
+    from . import common as _r7
+    _r7.import_clauses(ctx, res, 'C08', ['C08.a'], 'C19', 'C19.n', 'R-TYPESTATE', 'every selected recording gets exactly one comparison from the equalizer', floor=1)
     return res
 
 
